@@ -430,14 +430,17 @@ class History(object):
         """{version index: set(shnums)} of valid shares on the given server indexes.
         verify_level 0: shares whose signed part is intact count (what a survey can know);
         verify_level 1: only shares without any corruption count.
-        open_valid: how to read shares with an OPEN_KINDS corruption."""
+        open_valid: how to read shares with an OPEN_KINDS corruption (each such share is open on its own: its
+        signature is consulted iff it is the first share of its version that a survey processes)."""
         inv = {}
         corrupt_seen = False
         for (idx, sh), (vid, kind) in self.truth.items():
             if idx not in servers:
                 continue
             if kind in OPEN_KINDS:
-                if open_valid:
+                # open_valid: True (all count), False (none counts) or the set of (server, shnum) keys that count
+                counts = open_valid if isinstance(open_valid, bool) else ((idx, sh) in open_valid)
+                if counts:
                     kind = None
                 else:
                     continue
@@ -450,6 +453,19 @@ class History(object):
                     continue
             inv.setdefault(vid, set()).add(sh)
         return inv, corrupt_seen
+
+    def open_readings(self, servers):
+        """Every way of counting / not counting the shares whose only damage is in their signature bytes: each of them
+        is accepted iff some other share of its version had its signature checked before it, which depends on the order
+        answers are processed in.  (More than 6 such shares: only 'all' and 'none' plus each single one.)"""
+        import itertools
+        keys = sorted(k_ for k_, (vid, kind) in self.truth.items() if kind in OPEN_KINDS and k_[0] in servers)
+        if not keys:
+            return [True]
+        if len(keys) <= 6:
+            return [frozenset(c) for r in range(len(keys) + 1) for c in itertools.combinations(keys, r)]
+        return [frozenset(keys), frozenset()] + [frozenset([k_]) for k_ in keys] + \
+            [frozenset(keys) - frozenset([k_]) for k_ in keys]
 
     def analyse(self, inv):
         V = self.versions
@@ -538,7 +554,7 @@ class History(object):
         """results: ICheckResults; servers: indexes that answered the survey."""
         ck, V = self.ck, self.versions
         readings = []
-        for open_valid in (True, False):
+        for open_valid in self.open_readings(servers):
             inv0, corrupt_seen = self.inventory(servers, 0, open_valid)
             inv, _ = self.inventory(servers, 1 if verify else 0, open_valid)
             rec, unrec, best, newer = self.analyse(inv)
@@ -550,7 +566,7 @@ class History(object):
                 eh = False
             readings.append((eh, bool(rec)))
         has_open = any(kind in OPEN_KINDS for (idx, sh), (vid, kind) in self.truth.items() if idx in servers)
-        if readings[0] != readings[1]:
+        if len(set(readings)) != 1:
             ck.skip("health-depends-on-a-share-whose-only-damage-is-an-unconsulted-signature")
             return
         if verify and has_open:
@@ -563,6 +579,7 @@ class History(object):
             # a leftover counts as "a corrupt share" for the verified health is left open
             ck.skip("verify-health-with-only-a-survey-rejected-share-left-open")
             return
+        inv, _ = self.inventory(servers, 1 if verify else 0, True)
         w = dict(self.desc, op=op, verify=verify, what=what,
                  inventory={str(v): sorted(s) for v, s in inv.items()}, answered=sorted(servers),
                  reported_healthy=results.is_healthy(), reported_recoverable=results.is_recoverable(),
@@ -658,10 +675,14 @@ class History(object):
         reachable = set(vs.index for vs in self.g.servers if vs.connected and not vs.hidden)
         inv, corrupt_seen = self.inventory(reachable, 0, True)
         rec, unrec, best, newer = self.analyse(inv)
-        inv2, _ = self.inventory(reachable, 0, False)
-        rec2, unrec2, best2, newer2 = self.analyse(inv2)
+        views = set()
+        for open_valid in self.open_readings(reachable):
+            inv2, _ = self.inventory(reachable, 0, open_valid)
+            rec2, unrec2, best2, newer2 = self.analyse(inv2)
+            views.add((tuple(sorted(rec2)), tuple(sorted(best2)), tuple(sorted(newer2)),
+                       tuple(sorted(set(self.versions[v]["seq"] for v in inv2)))))
         return dict(inv=inv, rec=rec, best=best, newer=newer, corrupt=corrupt_seen,
-                    ambiguous=(sorted(rec), sorted(best), sorted(newer)) != (sorted(rec2), sorted(best2), sorted(newer2)),
+                    ambiguous=len(views) != 1,
                     seqs=sorted(set(self.versions[v]["seq"] for v in inv)))
 
     def judge_repair(self, op, force, status, successful, err, n0, pre):
